@@ -292,6 +292,25 @@ pub fn run(ctx: &Ctx) -> i32 {
             }
         }
     });
+    // two windows in one model: every ordered pair of wall poses sharing or not sharing the azimuth / the tilt (what is
+    // computed for one window must not depend on which window was treated before it)
+    let pz = ctx.tier.pick(3, zones.len());
+    let paz = [0.0f32, 90.0, 180.0, -45.0];
+    let g2 = Grid::new(&[("zone", pz), ("azimuth A", paz.len()), ("tilt A", 3), ("azimuth B{same,+90}", 2), ("tilt B", 3), ("order", 2)]);
+    let accs2 = par_fold(g2.size(), |i, acc: &mut Acc| {
+        let t = g2.unrank(i);
+        let mut m = scene(zones[t[0]], paz[t[1]], TILTS[t[2]], 0.0, "overhang", 0, 0);
+        let az_b = paz[t[1]] + [0.0f32, 90.0][t[3]];
+        let wg = geom(TILTS[t[4]], az_b, Some([3.0, -2.0, 12.0]), rect(4.0, 3.0));
+        m.walls.push(wall("W1", BoundaryType::EXTERIOR, uid("wc"), uid("S1"), None, wg));
+        m.windows.push(window("V1", uid("winc"), uid("W1"), Some([1.0, 0.8]), 1.5, 1.2, 0.0));
+        if t[5] == 1 {
+            m.windows.reverse();
+            m.walls.reverse();
+        }
+        let case = || json!({"part": "two-windows", "zone": zones[t[0]], "A(az,tilt)": [paz[t[1]], TILTS[t[2]]], "B(az,tilt)": [az_b, TILTS[t[4]]], "B listed first": t[5] == 1});
+        check_scene(ctx, &m, &case, acc, None);
+    });
     // real models: reference comparison + one extra obstacle in front of the first window's wall
     let mut acc3 = Acc::default();
     let reals = shipped_models();
@@ -320,7 +339,7 @@ pub fn run(ctx: &Ctx) -> i32 {
         }
     }
     let mut amb = 0;
-    for a in accs.iter().chain(std::iter::once(&acc3)) {
+    for a in accs.iter().chain(accs2.iter()).chain(std::iter::once(&acc3)) {
         ctx.eval(a.n);
         ctx.nontriv(a.nontriv);
         ctx.outcome_merge(&a.outcomes);
@@ -331,7 +350,7 @@ pub fn run(ctx: &Ctx) -> i32 {
     ctx.sample(json!({"part": "scene", "zone": zones[t[0]], "azimuth": AZS[t[1]], "tilt": TILTS[t[2]], "setback_idx": t[3], "obstacle": OBST[t[4]], "fillers": FILLERS[t[5]], "positions": t[6]}));
     ctx.finish(
         "model_checking",
-        &format!("full product zones({}) x window-wall azimuth(8) x tilt{{90,45,0}} x setback{{0,0.2}} x obstacle{{none, facing wall at 1/5/20 m, overhang, big overhang, side fin, half cover, behind, below}} x far-away filler occluders{{0,29,30,31,60}} (crossing the BVH leaf size) x positions{{all, window without, wall without}}; oracle: brute-force f64 ray/polygon casting from the code's own sample points over the statement's occluder set (reveals recomputed), bands: 1 mm from an outline, |n.d|<0.02, sun within 0.02 of the back-face threshold; F in [lo-0.005, hi+0.005], in [0,1], >= 0.97 when nothing can be hit, diffuse share when hidden at every hour, sample points on the window rectangle in the set-back plane; exact monotonicity when each alphabet obstacle (one as a wall) is added; shipped models with and without extra obstacles; non-trivial = some ray can be blocked", zones.len()),
+        &format!("full product zones({}) x window-wall azimuth(8) x tilt{{90,45,0}} x setback{{0,0.2}} x obstacle{{none, facing wall at 1/5/20 m, overhang, big overhang, side fin, half cover, behind, below}} x far-away filler occluders{{0,29,30,31,60}} (crossing the BVH leaf size) x positions{{all, window without, wall without}}; oracle: brute-force f64 ray/polygon casting from the code's own sample points over the statement's occluder set (reveals recomputed), bands: 1 mm from an outline, |n.d|<0.02, sun within 0.02 of the back-face threshold; F in [lo-0.005, hi+0.005], in [0,1], >= 0.97 when nothing can be hit, diffuse share when hidden at every hour, sample points on the window rectangle in the set-back plane; exact monotonicity when each alphabet obstacle (one as a wall) is added; two-window models over all ordered pairs of wall poses (azimuth(4) x tilt(3) x second azimuth{{same,+90}} x tilt(3) x list order); shipped models with and without extra obstacles; non-trivial = some ray can be blocked", zones.len()),
         true,
         json!({"scenes": n}),
     )
